@@ -272,6 +272,62 @@ func (g *flowGen) sliceArg() string {
 	return g.pick("args.data", "s", "args.data", "s", "this.buf[..]", "this.tab[..]", "args.data[1 ..]")
 }
 
+// staleProbe: establish a fact, invalidate it, then `assert` it again.  The assertion is
+// not provable any more, so the real checker must reject the candidate (it is then
+// withdrawn; in scalar mode the Lean model must reject it too).  A checker that forgets
+// an invalidation accepts it, and the assertion is then evaluated at run time.
+func (g *flowGen) staleProbe() (kind string, lines []string) {
+	k := g.pick("3", "4", "5")
+	wrap := func(cond string, mid ...string) []string {
+		out := []string{"if " + cond + " {"}
+		out = append(out, mid...)
+		return append(out, "assert "+cond, "}")
+	}
+	n := 7
+	if !g.p.Scalar {
+		n = 13
+	}
+	if g.p.Coroutine {
+		switch g.rd.Intn(4) {
+		case 0:
+			return "stale-violating:arg-after-yield", wrap("args.n < "+k, `yield? base."$short read"`)
+		case 1:
+			return "stale-violating:field-after-coroutine-call", wrap("this.f1 < "+k, "this.nap?()")
+		}
+	}
+	switch g.rd.Intn(n) {
+	case 0:
+		return "stale-violating:field-after-impure-call", wrap("this.f1 < "+k, "this.poke!(v: 9)")
+	case 1:
+		return "stale-violating:local-after-assign", wrap("x < "+k, "x = args.n")
+	case 2:
+		return "stale-violating:local-after-op-assign", wrap("x < "+k, "x += 1")
+	case 3:
+		return "stale-violating:field-after-store", wrap("this.f0 < "+k, "this.f0 = args.n")
+	case 4:
+		return "stale-violating:local-after-if-join", []string{"if args.n < 2 {", "y = 1", "} else {", "y = args.v", "}", "assert y == 1"}
+	case 5:
+		return "stale-violating:local-after-loop", []string{"y = 1", "while c < args.n {", "c += 1", "y = 2", "}", "assert y == 1"}
+	case 6:
+		return "stale-violating:field-after-call-result", wrap("this.f1 < "+k, "y = this.take!()")
+	case 7:
+		return "stale-violating:array-elem-after-store", wrap("this.tab[0] < "+k, "this.tab[args.n & 3] = 9")
+	case 8:
+		return "stale-violating:slice-elem-after-alias-store", []string{"s = args.data[..]", "if args.data.length() >= 1 {", "if s.length() >= 1 {",
+			"if args.data[0] < " + k + " {", "s[0] = 9", "assert args.data[0] < " + k, "}", "}", "}"}
+	case 9:
+		return "stale-violating:slice-elem-after-call", []string{"if args.data.length() >= 1 {", "if args.data[0] < " + k + " {",
+			"this.scribble!(dst: " + g.pick("args.data", "args.data[..]", "args.data[0 ..]") + ", v: 9)", "assert args.data[0] < " + k, "}", "}"}
+	case 10:
+		return "stale-violating:io-length-after-skip", []string{"if args.src.length() >= 2 {", "args.src.skip_u32_fast!(actual: 2, worst_case: 2)",
+			"assert args.src.length() >= 2", "}"}
+	case 11:
+		return "stale-violating:can-undo-after-maybe-zero-skip", []string{"if args.src.length() >= 1 {", "args.src.skip_u32_fast!(actual: args.n & 1, worst_case: 1)",
+			"assert args.src.can_undo_byte()", "}"}
+	}
+	return "stale-violating:pure-call-after-store", wrap("this.get() < "+k, "this.f1 = 9")
+}
+
 // invalidator: one statement that changes state.
 func (g *flowGen) invalidator() (kind, line string) {
 	k := fmt.Sprint(g.rd.Intn(3))
@@ -575,6 +631,9 @@ func (g *flowGen) block(depth, budget int) {
 			if lines := g.axiomUse(); lines != nil {
 				g.try("axiom-use", lines...)
 			}
+		case r < 12:
+			kind, lines := g.staleProbe()
+			g.try(kind, lines...)
 		default:
 			for a := 0; a < 3; a++ {
 				kind, line := g.invalidator()
